@@ -137,6 +137,8 @@ class Rig:
             self.t._parse_channel_open_failure(r)
 
     def _callback(self, chanid):
+        if not isinstance(chanid, int) or not (0 <= chanid < M24):
+            self.problems.append(("id-out-of-range", "id %r handed to the server's check_channel_request" % (chanid,)))
         self.pending = chanid
         if self.nested is not None:
             f, self.nested = self.nested, None
@@ -264,8 +266,14 @@ def gen_layout(rng, thorough):
     return counter, sorted(ids)
 
 
-def gen_history(rng, server_mode, nops):
+def gen_history(rng, server_mode, nops, wrap_refusal=0):
     ops = []
+    if wrap_refusal:
+        # lead-in: opens up to the id that wraps the counter, a REFUSED peer open exactly there, then more opens
+        for _ in range(wrap_refusal - 1):
+            ops.append(("local", True, "session") if rng.random() < 0.5 else ("peer", "session", True, []))
+        ops.append(("peer", rng.choice(["session", "direct-tcpip"]), False, []))
+        ops.append(("local", True, "session") if rng.random() < 0.5 else ("peer", "session", True, []))
     for _ in range(nops):
         r = rng.random()
         if r < 0.38:
@@ -328,38 +336,47 @@ def run_history(rig, counter, ids, ops):
         impl.append("ok")
 
     for op in ops:
-        if op[0] == "local":
-            do_local(op[1], op[2], reqs, impl)
-        elif op[0] == "del":
-            do_del(op[1], op[2], reqs, impl)
-        else:
-            _, kind, accept, nested = op
-            inner_reqs, inner_impl = [], []
+      try:
+          if op[0] == "local":
+              do_local(op[1], op[2], reqs, impl)
+          elif op[0] == "del":
+              do_del(op[1], op[2], reqs, impl)
+          else:
+              _, kind, accept, nested = op
+              inner_reqs, inner_impl = [], []
 
-            def run_nested():
-                for n in nested:
-                    info["nested"] += 1
-                    if n[0] == "local":
-                        do_local(n[1], n[2], inner_reqs, inner_impl)
-                    else:
-                        do_del(n[1], n[2], inner_reqs, inner_impl)
+              def run_nested():
+                  for n in nested:
+                      info["nested"] += 1
+                      if n[0] == "local":
+                          do_local(n[1], n[2], inner_reqs, inner_impl)
+                      else:
+                          do_del(n[1], n[2], inner_reqs, inner_impl)
 
-            before = rig.t._channel_counter
-            res = rig.peer_open(kind, accept, run_nested if (nested and rig.t.server_mode) else None)
-            if res is None:
-                continue  # refused before any allocation (client mode, unknown kind)
-            cid, c_after, registered = res
-            note_alloc(before, cid)
-            reqs.append("palloc")
-            impl.append("%d %d" % (cid, c_after))
-            reqs += inner_reqs
-            impl += inner_impl
-            if registered:
-                reqs.append("pput")
-                impl.append("ok 0 0")
-            else:
-                reqs.append("prej")
-                impl.append("ok")
+              before = rig.t._channel_counter
+              res = rig.peer_open(kind, accept, run_nested if (nested and rig.t.server_mode) else None)
+              if res is None:
+                  continue  # refused before any allocation (client mode, unknown kind)
+              cid, c_after, registered = res
+              note_alloc(before, cid)
+              reqs.append("palloc")
+              impl.append("%d %d" % (cid, c_after))
+              reqs += inner_reqs
+              impl += inner_impl
+              if registered:
+                  reqs.append("pput")
+                  impl.append("ok 0 0")
+              else:
+                  reqs.append("prej")
+                  impl.append("ok")
+      except Runaway:
+        raise
+      except Exception as e:  # noqa — the real code raised out of an open: reported with what was allocated
+        from pv.core import exc_site
+        rig.problems.append(("open-raised:" + exc_site(e), "%s during %r; ids allocated so far %r"
+                             % (repr(e)[:120], op[:3], rig.allocs[-4:])))
+        info["aborted"] = True
+        break
     rig.final_check()
     reqs.append("live")
     impl.append(",".join(map(str, rig.keys())) or "-")
@@ -475,7 +492,13 @@ def run(ctx):
     for h in range(n_hist):
         server_mode = rng.random() < 0.7
         counter, ids = gen_layout(rng, ctx.thorough)
-        ops = gen_history(rng, server_mode, rng.randrange(3, 51))
+        if h % 8 == 0:
+            k = rng.randrange(1, 5)
+            server_mode, counter, ids = True, M24 - k, [i for i in ids if (i - (M24 - k)) % M24 > 8]
+            ops = gen_history(rng, True, rng.randrange(3, 30), wrap_refusal=k)
+            ctx.dist("histories-with-refusal-at-the-wrap")
+        else:
+            ops = gen_history(rng, server_mode, rng.randrange(3, 51))
         rig = Rig(server_mode)
         case = {"server_mode": server_mode, "counter": counter, "sentinels": ids if len(ids) <= 60 else ids[:60],
                 "ops": ops}
